@@ -13,6 +13,7 @@ from hypothesis import strategies as st
 import common
 import farm
 import farmcheck
+import zoo
 import p21gen
 import p21render
 import p21parse
@@ -202,7 +203,7 @@ def main(tier, seed):
                          make_strategy=lambda lib: cases(lib["schema"], cfg), case_fn=case,
                          confirm_fn=lambda lib, f, wd: bool(oracle(lib, f["pop"], f["text"], f["order"], wd, "confirm")),
                          replay_files=lambda f: {"input.p21": f["text"], "case.json": json.dumps({"pop": f["pop"], "order": f["order"]})},
-                         schema_cfg=c01.SCHEMA_CFG)
+                         schema_cfg=c01.SCHEMA_CFG, extra_schemas=[zoo.ZOO])
 
 
 def replay(path):
